@@ -321,14 +321,19 @@ class RadioDriver(CRTPDriver):
         if len(parsed_path) > 0:
             channel = int(parsed_path[0])
 
+        if len(parsed_path) > 3:
+            raise Exception('Too many fields in radio URI {}'.format(uri))
+
         datarate = Crazyradio.DR_2MPS
         if len(parsed_path) > 1:
             if parsed_path[1] == '250K':
                 datarate = Crazyradio.DR_250KPS
-            if parsed_path[1] == '1M':
+            elif parsed_path[1] == '1M':
                 datarate = Crazyradio.DR_1MPS
-            if parsed_path[1] == '2M':
+            elif parsed_path[1] == '2M':
                 datarate = Crazyradio.DR_2MPS
+            else:
+                raise Exception('Unknown data rate {} in radio URI'.format(parsed_path[1]))
 
         address = DEFAULT_ADDR_A
         if len(parsed_path) > 2:
